@@ -183,11 +183,13 @@ static const char* std_fp(int t) {
 
 enum { OP_NONE, OP_DEL, OP_DEL_RAW, OP_DEL_ROOT, OP_DEALLOC, OP_DEALLOC_RAW, OP_DEALLOC_ROOT, OP_DESTRUCT,
        OP_RESIZE_SHRINK, OP_RESIZE_GROW, OP_CONCAT, OP_APPEND, OP_PUSH, OP_POP, OP_PUSH_AT, OP_POP_AT0, OP_POP_ATLAST,
-       OP_REM, OP_ASSIGN, OP_PRINT_TO, NOPS };
+       OP_REM, OP_ASSIGN, OP_PRINT_TO,
+       OP_DEL_STOPPED, OP_DEL_ROOT_STOPPED,       /* del / del_root between stop(gc) and start(gc); collector-managed heap objects only, forked */
+       NOPS };
 
 static const char* opname[NOPS] = { "none", "del", "del_raw", "del_root", "dealloc", "dealloc_raw", "dealloc_root", "destruct",
   "resize_shrink", "resize_grow", "concat", "append", "push", "pop", "push_at", "pop_at_first", "pop_at_last",
-  "rem", "assign", "print_to" };
+  "rem", "assign", "print_to", "del-while-stopped", "del_root-while-stopped" };
 
 static int is_delete_op(int op) { return op >= OP_DEL && op <= OP_DEALLOC_ROOT; }
 static int is_dealloc_op(int op) { return op >= OP_DEALLOC && op <= OP_DEALLOC_ROOT; }
@@ -211,6 +213,7 @@ static int op_applies(int t, int op) {
     case OP_REM:           return type_implements_method(ty, Get, rem) && (is_seq(t) || is_map(t));
     case OP_ASSIGN:        return type_implements_method(ty, Assign, assign) && (t == T_STRING || is_seq(t) || is_map(t));
     case OP_PRINT_TO:      return t == T_STRING && type_implements_method(ty, Format, format_to);
+    case OP_DEL_STOPPED: case OP_DEL_ROOT_STOPPED: return 1;
   }
   return 0;
 }
@@ -453,6 +456,27 @@ static void judge(struct subj* s, int op) {
   void* own = owned_ptr(s->t, s->o, &ownn);
   void* block = header(s->o);
   size_t blockn = sizeof(struct Header) + (size(s->type) ? size(s->type) : sizeof(var));
+
+  if (op == OP_DEL_STOPPED || op == OP_DEL_ROOT_STOPPED) {
+    /* explicit delete while the collector is stopped (forked child only).  Whatever the library decides to do - ignore the
+       call (the leak is C06's known finding) or finalise at once - block and registry must agree afterwards: a block that
+       was freed must not stay registered (the next sweep would release it again), a block that was not freed must. */
+    if (!in_child || s->kind != K_OWN) return;
+    al_begin(); al_tracked(block); al_tracked(own);
+    stop(current(GC));
+    al_start();
+    var e1 = VF_CATCH(if (op == OP_DEL_STOPPED) del(s->o); else del_root(s->o));
+    al_stop();
+    start(current(GC));
+    if (e1) _exit(12);
+    int nf = al_count(block, 0);
+    volatile bool still = false;
+    e1 = VF_CATCH(still = mem(current(GC), s->o));
+    if (nf > 1) _exit(13);
+    if (nf == 1 && still) _exit(10);
+    if (nf == 0 && !still) _exit(17);
+    _exit(nf == 0 ? 18 : 0);
+  }
 
   /* ===== heap object made by this case ===== */
   if (s->kind == K_OWN) {
@@ -954,6 +978,11 @@ static void fork_case(int src, int t, int v, int op) {
   switch (r.status) {
     case 0: mark_nontrivial(); outcome(&s, "deallocated-and-unregistered"); break;
     case 15: n_copy_unavailable++; break;
+    case 18: n_noop++; outcome(&s, "ignored-while-stopped"); break;     /* not freed, still registered: consistent (the leak is C06's finding) */
+    case 17:
+      snprintf(lab, sizeof lab, "heap/%s/%s/unregistered-but-not-released", m, opname[op]);
+      vf_violation(lab, NULL, "%s removed the registry entry of a %s object obtained by %s but never freed its block", opname[op], tyname[t], srcname[src]);
+      break;
     case 10:
       mark_nontrivial();
       snprintf(lab, sizeof lab, "heap/%s/%s/collector-entry-left", m, opname[op]);
@@ -974,10 +1003,11 @@ static void one(int src, int t, int v, int op) {
   if (vf.replay && (src != r_src || t != r_t || v != r_v || op != r_op)) return;
   if (vf.viol_total > 4000) { vf.exhaustive = 0; return; }
   int managed_own = src == S_NEW || src == S_NEW_ROOT || src == S_ALLOC || src == S_ALLOC_ROOT || src == S_COPY;
+  if (op >= OP_DEL_STOPPED && !managed_own) return;
   /* "they must be destructed with the corresponding deletion functions"; the raw variants do not go via the collector */
   if (managed_own && (op == OP_DEL_RAW || op == OP_DEALLOC_RAW || op == OP_DESTRUCT)) { n_skipped_contract++; return; }
   if (vf_want_sample()) vf_sample("src=%s type=%s var=%d op=%s", srcname[src], tyname[t], v, opname[op]);
-  if (managed_own && is_dealloc_op(op)) { fork_case(src, t, v, op); return; }
+  if (managed_own && (is_dealloc_op(op) || op >= OP_DEL_STOPPED)) { fork_case(src, t, v, op); return; }
   /* anything the case raises outside the operation under test (building the container, walking it, reading values) */
   var e = VF_CATCH(run_case(src, t, v, op));
   if (e) {
